@@ -392,6 +392,14 @@ def battery(repo: Repo, ctx, rule: str, prefixes: Iterable[str],
                      for f, p, k, eqf, extra in hits[:3]) +
            f' -- {consequence}', hits[0][0].loc if hits else '',
            sample=f'{n} class-typed cache parameters', nontrivial=bool(n))
+    n, hits = arm_family_slips(repo, prefixes)
+    ctx.ob(rule, 'slips:arm-family', not hits,
+           '; '.join(f'{f.qualname}: the arm that tests `{t}` assigns {a} '
+                     f'while the sibling arms assign the name they test '
+                     f'(copied from another arm)' for f, arm, t, a in
+                     hits[:3]) + f' -- {consequence}',
+           f'{hits[0][0].module.rel()}:{hits[0][1].lineno}' if hits else '',
+           sample=f'{n} chains', nontrivial=bool(n))
     # (unused_locals() is deliberately not armed: leaving a value unused is
     # behaviour-preserving, so it cannot be a violation signal)
     n, hits = loop_slips(repo, prefixes)
@@ -849,4 +857,69 @@ def cache_key_equality(repo: Repo, prefixes: Iterable[str]):
                     extra = sorted(reads - eq_fields)
                     if extra:
                         out.append((f, p.arg, k, sorted(eq_fields), extra))
+    return n, out
+
+
+def arm_family_slips(repo: Repo, prefixes: Iterable[str]):
+    """if/elif chains whose arms each test one member of a family of names
+    and assign a member of the same family: `if t is A: r = A elif t is B:
+    r = B elif t is C: r = A` -- the last arm copies another arm's value."""
+    out = []
+    n = 0
+    for m in repo.modules.values():
+        if not m.name.startswith(tuple(prefixes)):
+            continue
+        for f in repo._funcs_of(m):
+            heads = set()
+            for t in ast.walk(f.node):
+                if isinstance(t, ast.If):
+                    for o in t.orelse:
+                        if isinstance(o, ast.If) and len(t.orelse) == 1:
+                            heads.add(id(o))
+            for t in ast.walk(f.node):
+                if not isinstance(t, ast.If) or id(t) in heads:
+                    continue
+                arms = []
+                cur = t
+                while True:
+                    arms.append(cur)
+                    if len(cur.orelse) == 1 and isinstance(
+                            cur.orelse[0], ast.If):
+                        cur = cur.orelse[0]
+                    else:
+                        break
+                if len(arms) < 3:
+                    continue
+                test_names = [{x.id for x in ast.walk(a.test)
+                               if isinstance(x, ast.Name)} for a in arms]
+                assigned = []
+                for a in arms:
+                    s_ = set()
+                    for st in a.body:
+                        if isinstance(st, ast.Assign) and isinstance(
+                                st.value, ast.Name):
+                            s_.add(st.value.id)
+                    assigned.append(s_)
+                # a name that occurs in exactly one arm's test tells that
+                # arm apart from its siblings
+                from collections import Counter
+                cnt = Counter(x for tn in test_names for x in tn)
+                own = [{x for x in tn if cnt[x] == 1} for tn in test_names]
+                if sum(1 for o in own if o) < 3:
+                    continue
+                n += 1
+                good = bad = 0
+                slip = None
+                for i, (a, o, an) in enumerate(zip(arms, own, assigned)):
+                    if not o or not an:
+                        continue
+                    others = set().union(*(own[j] for j in range(len(own))
+                                           if j != i))
+                    if an & o:
+                        good += 1
+                    elif an & others:
+                        bad += 1
+                        slip = (a, sorted(o)[0], sorted(an & others))
+                if good >= 2 and bad == 1:
+                    out.append((f, slip[0], slip[1], slip[2]))
     return n, out
